@@ -135,7 +135,7 @@ Qed.
 
 Lemma fspec_fields_cons names n tg an t r :
   fspec_fields E sh_flat0 env 0%N names (FCons n tg an t r) =
-  (x <- (if negb (exported n) then Ok (zero t)
+  (x <- (if negb (xexported n) then Ok (zero t)
          else
            p <- fspec_ty E sh_flat0 env 0%N (if an then names else names ++ [n]) t ;;
            if aliased sh_flat0 tg then
